@@ -287,6 +287,9 @@ def check(ctx):
                    key="C09.3:is_se3:block")
     # is_sim3: reflections (negative block determinant) must not pass
     sc = Interp(prog).run(prog.func(L + "sim3_scale")).ret
+    while is_call_to(sc, "builtins.float", "numpy.float64", "numpy.real") \
+            and sc.args[1]:
+        sc = sc.args[1][0]
     good = (is_call_to(sc, "numpy.power") and len(sc.args[1]) == 2 and
             any(is_call_to(x, "numpy.linalg.det") for x in sc.args[1][0]
                 .walk())) or (sc.op == "binop" and sc.args[0] == "Pow")
